@@ -505,6 +505,73 @@ def path_differential(tier, seed):
                         bad('the namespace axis of an element has a prefix twice, or not the xml prefix exactly once', version=version, prefixes=repr(names)[:80],
                             caller_map_has_xml='xml' in nsm, tree=repr(t)[:160])
                         break
+    # kind tests against the node kinds that an axis holds, and the shape of the result of the public select() (a node list is a list, whatever the top operator is)
+    import elementpath as _ep
+    src = '<a x="1" xmlns:p="urn:p"><b y="2" p:z="9">t<c/><!--k--><?pi v?></b><d/></a>'
+    nsm = {'p': 'urn:p'}
+    def et_xml(text):         # xml.etree drops comments and processing instructions unless told otherwise
+        return ET.XML(text, parser=ET.XMLParser(target=ET.TreeBuilder(insert_comments=True, insert_pis=True)))
+    for kind, mkroot in (('xml.etree element', lambda: et_xml(src)), ('xml.etree document', lambda: ET.ElementTree(et_xml(src))), ('lxml element', lambda: LX.XML(src)),
+                         ('lxml document', lambda: LX.ElementTree(LX.XML(src)))):
+        lx = LX.XML(src)
+
+        def key(x):
+            return (x if isinstance(x, (str, tuple, int, float, bool)) else getattr(x, 'tag', None) if not callable(getattr(x, 'tag', None)) else x.tag.__name__)
+        # XPath 1.0 against libxml2
+        for expr in ('/a/namespace::node()', 'count(/a/namespace::node())', 'count(/a/namespace::text())', 'count(/a/namespace::comment())', 'count(/a/b/namespace::node()/..)',
+                     'count(//namespace::node())', 'count(/a/namespace::p | /a/b)', 'name(/a/namespace::node()[2])', '/a/b/attribute::node()', 'count(/a/b/attribute::text())',
+                     'count(/a/b/attribute::comment())', '/a/b/child::node()', 'count(/a/b/child::text())', 'count(/a/b/descendant-or-self::node())', '/a/b/self::node()',
+                     'count(/a/b/@y/self::node())', 'count(/a/b/c/preceding-sibling::node())', 'count(/a/b/c/following-sibling::processing-instruction())',
+                     '/child::*', '/child::a', '/child::a/b', 'count(/child::node())', '/descendant::c', '/descendant-or-self::node()/d', '/self::node()/a',
+                     '@x | @y', 'b/@y | @x', 'b/text() | d/text()', 'attribute::x', 'b/attribute::*', '(b | d)[1]', 'b/c | b/c'):
+            if 'document' in kind and not expr.startswith(('/', 'count(/', 'name(/')):
+                continue          # relative paths: the context item of libxml2 is the root element
+            n += 1
+            root = mkroot()
+            try:
+                got = _ep.select(root, expr, namespaces=nsm, parser=PARSERS['1.0'])
+            except ElementPathError as e:
+                got = f'error {e.code}'
+            want = lx.xpath(expr, namespaces=nsm)
+            gk = [key(x) for x in got] if isinstance(got, list) else got
+            wk = [key(x) for x in want] if isinstance(want, list) else want
+            if gk != wk:
+                what = ('the namespace axis with a kind test' if 'namespace::' in expr else 'the explicit ' + expr.split('::')[0].split('/')[-1] + ' axis right after the leading / on an element root' if expr.startswith(('/child', '/desc', '/self', 'count(/child'))
+                        and 'element' in kind else 'select() does not return the node list as a list' if isinstance(want, list) and not isinstance(got, list) and not str(got).startswith('error')
+                        else 'a kind test on an axis')
+                bad(f'XPath 1.0 select() differs from libxml2: {what}', expr=expr, root=kind, elementpath=repr(gk)[:90], libxml2=repr(wk)[:90])
+        # XPath 2.0+: kind tests with arguments, on every axis; the equivalent expression is in the XPath 1.0 subset
+        for expr, same in (('/a/b/attribute()', '/a/b/@*'), ('/a/b/attribute(y)', '/a/b/@y'), ('//attribute(p:z)', '//@p:z'), ('/a/b/attribute(*)', '/a/b/@*'),
+                           ('/a/attribute::attribute(x)', '/a/@x'), ('/a/b/@*/self::attribute(y)', '/a/b/@y'), ('/a/attribute::element(*)', '/a/zzz'), ('/a/attribute::element(x)', '/a/zzz'),
+                           ('/a/child::element(b)', '/a/b'), ('/a/element(b)/element(c)', '/a/b/c'), ('//element()', '//*'), ('/a/b/@y/self::element()', '/a/zzz'),
+                           ('/a/child::attribute()', '/a/zzz'), ('/a/self::attribute()', '/a/zzz'), ('/a/b/parent::attribute()', '/a/zzz'), ('/a/descendant::attribute(y)', '/a/zzz'),
+                           ('/a/b/child::text()', '/a/b/text()'), ('/a/b/attribute::text()', '/a/zzz'), ('/a/namespace::namespace-node()', '/a/namespace::*'),
+                           ('/a/b/child::comment()', '/a/b/comment()'), ('/a/b/child::document-node()', '/a/zzz')):
+            for version in ('2.0', '3.1'):
+                if version == '2.0' and 'namespace-node' in expr:
+                    continue          # a kind test of XPath 3.0
+                n += 1
+                root = mkroot()
+                try:
+                    g = _ep.select(root, expr, namespaces=nsm, parser=PARSERS[version])
+                    w = _ep.select(mkroot(), same, namespaces=nsm, parser=PARSERS[version])
+                except ElementPathError as e:
+                    bad('a kind test raises', expr=expr, version=version, err=str(e)[:90])
+                    continue
+                gk, wk = ([key(x) for x in v] if isinstance(v, list) else v for v in (g, w))
+                if gk != wk:
+                    what = f"attribute() after the explicit {expr.split('::')[0].split('/')[-1]} axis selects attribute nodes" if 'attribute(' in expr and same == '/a/zzz' else \
+                        'element() selects a node that is not an element' if 'element(' in expr and same == '/a/zzz' else 'a kind test with arguments'
+                    bad(f'XPath 2.0+: {what}', expr=expr, equivalent=same, version=version, root=kind, got=repr(gk)[:80], expected=repr(wk)[:80])
+        for expr, same in (('//attribute(Q{urn:p}z)', '//@p:z'), ('/a/b/attribute(Q{}y)', '/a/b/@y')):
+            n += 1
+            try:
+                g, w = _ep.select(mkroot(), expr, namespaces=nsm, parser=PARSERS['3.1']), _ep.select(mkroot(), same, namespaces=nsm, parser=PARSERS['3.1'])
+            except ElementPathError as e:
+                bad('a kind test raises', expr=expr, version='3.1', err=str(e)[:90])
+                continue
+            if g != w:
+                bad('XPath 3.0+: a kind test with a braced name', expr=expr, equivalent=same, root=kind, got=repr(g)[:80], expected=repr(w)[:80])
     fails = [{'key': k, 'items': it[:4], 'count': len(it), 'what': f'{k}: e.g. {it[0]}'} for k, it in fam.items()]
     return {'evaluations': n, 'distinct': n, 'exhaustive': False,
             'scope': f'{len(trees)} trees (all shapes up to {5 if tier == "quick" else 6} nodes with seeded decorations, 2 hand-written trees with nested same-named and '
@@ -528,9 +595,13 @@ def _family(expr):
     return tag
 
 
+_REPLAY_CACHE = {}
+
+
 def _replay(f):
-    r = path_differential('quick', 0)
-    return all(x['key'] != f['key'] for x in r['failures'])
+    if 'r' not in _REPLAY_CACHE:         # one re-run per process serves every recorded failure
+        _REPLAY_CACHE['r'] = path_differential('quick', 0)
+    return all(x['key'] != f['key'] for x in _REPLAY_CACHE['r']['failures'])
 
 
 BOUNDED = [Bounded('paths_vs_libxml2_and_across_versions', path_differential, _replay)]
